@@ -1,5 +1,6 @@
 import JF.Model.Periodic
 import JF.Lemmas.Periodic
+import JF.Lemmas.PeriodicRnd
 import Mathlib.Algebra.Order.Floor.Ring
 import Mathlib.Algebra.Order.AbsoluteValue.Basic
 import Mathlib.Data.Rat.Floor
@@ -19,7 +20,11 @@ Exact reading (`Ops.rat`, scalars in `ℚ`) of the model `JF.Model.Periodic` of
 * §5 cubic = cuboid when all lengths are equal — for EVERY scalar type and `Ops` record, so also for binary64;
 * §6 binary64 counterexamples (kernel-evaluated on native `Float`): the half-open range and idempotence of
   `correct_position_entry` are FALSE for the code as it stands (known finding
-  `correct_position:tiny-negative-returns-L`), while the separation bound `|r| ≤ L/2` survives.
+  `correct_position:tiny-negative-returns-L`), while the separation bound `|r| ≤ L/2` survives;
+* §7 rounding-abstract reading (`RQ R`: `+`/`-` round with an arbitrary monotone idempotent rounding, `fmod` exact):
+  for ALL inputs the closed bounds `0 ≤ y ≤ L`, `|r| ≤ L/2` hold, the position is the exact result rounded once,
+  non-negative inputs are wrapped exactly, `[0, L)` is fixed point-wise; `y = L` needs a negative input and is mapped
+  to `0` by a second application.  A toy rounding shows that `y = L` is indeed reachable under these hypotheses.
 -/
 namespace JF.C15
 open JF JF.Periodic
@@ -454,5 +459,311 @@ theorem cuboid_nextImage (hc : Cuboid.init Ops.rat d Ls = .ok c) (x : ℚ) (j : 
   simpa using wrap_add_int_mul (x := x) (hpos _ (List.getElem_mem hj)) 1
 
 end cuboid
+
+/-! ## 5. cubic = cuboid when all lengths are equal
+
+For EVERY scalar type `α` and every `Ops α` (so in particular for binary64, bit for bit): the cuboid class, run on the
+state that `HypercubicSetting` writes into the cuboid module — which is also exactly the state
+`HypercuboidSetting([L, …, L])` produces — returns what the cubic class returns. -/
+
+section agreement
+variable {α : Type}
+
+section
+variable [Div α] [LE α] [DecidableLE α]
+
+/-- what `Cubic.init` guarantees about its result -/
+theorem cubic_init_ok {o : Ops α} {d : ℤ} {L : α} {c : Cubic α} (h : Cubic.init o d L = .ok c) :
+    0 < d ∧ ¬ (L ≤ o.ofInt 0) ∧ c = ⟨d.toNat, L, L / o.ofInt 2⟩ := by
+  unfold Cubic.init at h
+  by_cases hd : d ≤ 0
+  · rw [if_pos hd] at h; cases h
+  · rw [if_neg hd] at h
+    by_cases hL : L ≤ o.ofInt 0
+    · rw [if_pos hL] at h; cases h
+    · rw [if_neg hL, Except.ok.injEq] at h
+      exact ⟨by omega, hL, h.symm⟩
+
+/-- `HypercuboidSetting([L]*d, dimension=d)` yields the very state that `HypercubicSetting(d, L)` writes into the
+cuboid module (`_set_similar_settings`) -/
+theorem cuboid_init_replicate {o : Ops α} {d : ℤ} {L : α} {c : Cubic α} (h : Cubic.init o d L = .ok c) :
+    Cuboid.init o d (List.replicate d.toNat L) = .ok (c.similar o) := by
+  obtain ⟨hd, hL, rfl⟩ := cubic_init_ok h
+  unfold Cuboid.init
+  rw [if_neg (by omega), if_neg (by simp; omega), if_neg (by simp [hL])]
+  simp [Cubic.similar]
+
+/-- the hypothesis `c.half = c.L / 2` of the statements below is what the set-up establishes -/
+theorem cubic_init_half {o : Ops α} {d : ℤ} {L : α} {c : Cubic α} (h : Cubic.init o d L = .ok c) :
+    c.half = c.L / o.ofInt 2 ∧ c.dim = d.toNat ∧ c.L = L := by
+  obtain ⟨-, -, rfl⟩ := cubic_init_ok h
+  exact ⟨rfl, rfl, rfl⟩
+
+end
+
+section
+variable [Add α] [Div α]
+
+theorem agree_nextImage (o : Ops α) (c : Cubic α) (x : α) (i : ℤ) (h1 : -(c.dim : ℤ) ≤ i) (h2 : i < c.dim) :
+    (c.similar o).nextImage x i = some (c.nextImage x i) := by
+  simp [Cuboid.nextImage, Cubic.similar, pyGet_replicate h1 h2, Cubic.nextImage]
+
+end
+
+section
+variable [Add α] [Div α] [LT α] [DecidableLT α] [BEq α]
+
+/-- entry form, every legal Python index `-d ≤ i < d` -/
+theorem agree_correctPositionEntry (o : Ops α) (c : Cubic α) (x : α) (i : ℤ) (h1 : -(c.dim : ℤ) ≤ i) (h2 : i < c.dim) :
+    (c.similar o).correctPositionEntry o x i = some (c.correctPositionEntry o x i) := by
+  simp [Cuboid.correctPositionEntry, Cubic.similar, pyGet_replicate h1 h2, Cubic.correctPositionEntry]
+
+/-- vector form of `correct_position` (at most `dimension` entries) -/
+theorem agree_correctPosition (o : Ops α) (c : Cubic α) (p : List α) (hp : p.length ≤ c.dim) :
+    (c.similar o).correctPosition o p = some (c.correctPosition o p) := by
+  rw [cuboid_correctPosition_eq _ _ _ (by simpa [Cubic.similar] using hp)]
+  congr 1
+  apply List.ext_getElem
+  · simp [Cubic.similar, Cubic.correctPosition, hp]
+  · intro j h1 h2
+    simp [Cubic.similar, Cubic.correctPosition, Cubic.correctPositionEntry]
+
+end
+
+section
+variable [Add α] [Sub α] [Div α] [LT α] [DecidableLT α] [BEq α]
+
+theorem agree_correctSeparationEntry (o : Ops α) (c : Cubic α) (hh : c.half = c.L / o.ofInt 2) (s : α) (i : ℤ)
+    (h1 : -(c.dim : ℤ) ≤ i) (h2 : i < c.dim) :
+    (c.similar o).correctSeparationEntry o s i = some (c.correctSeparationEntry o s i) := by
+  simp [Cuboid.correctSeparationEntry, Cubic.similar, pyGet_replicate h1 h2, Cubic.correctSeparationEntry, hh]
+
+theorem agree_correctSeparation (o : Ops α) (c : Cubic α) (hh : c.half = c.L / o.ofInt 2) (s : List α)
+    (hs : s.length ≤ c.dim) :
+    (c.similar o).correctSeparation o s = some (c.correctSeparation o s) := by
+  rw [cuboid_correctSeparation_eq _ _ _ (by simpa [Cubic.similar] using hs) (by simpa [Cubic.similar] using hs)]
+  congr 1
+  apply List.ext_getElem
+  · simp [Cubic.similar, Cubic.correctSeparation, hs]
+  · intro j h1 h2
+    simp [Cubic.similar, Cubic.correctSeparation, Cubic.correctSeparationEntry, hh]
+
+/-- `separation_vector`: the same result for ALL arguments, including the `IndexError` outcome -/
+theorem agree_separationVector (o : Ops α) (c : Cubic α) (hh : c.half = c.L / o.ofInt 2) (ref tgt : List α) :
+    (c.similar o).separationVector o ref tgt = c.separationVector o ref tgt := by
+  unfold Cuboid.separationVector Cubic.separationVector
+  have hdim : (c.similar o).dim = c.dim := rfl
+  rw [hdim]
+  cases hs : rawSeparation c.dim ref tgt with
+  | none => rfl
+  | some s =>
+    have hl := ((rawSeparation_spec _ _ _ _).mp hs).1
+    simp [agree_correctSeparation o c hh s (by omega)]
+
+end
+
+end agreement
+
+/-- non-vacuity, in binary64: the set-up succeeds and the agreement theorem applies to the real driver record -/
+example : (match Cubic.init Ops.floatK 3 2.5 with
+    | .ok c => c.half == 1.25 && c.dim == 3
+    | .error _ => false) = true := by decide +kernel
+
+/-! ## 6. binary64: what survives rounding and what does not
+
+`Ops.floatK` is `Ops.float` with a kernel-reducible re-encoding in `fmod` (see `JF/Model/Periodic.lean`; the driver
+evaluates every request of every run with both records and they must agree).  The statements below are evaluated by the
+Lean kernel on native `Float` (`Float.Model`, IEEE-754 binary64). -/
+
+/-- `-1e-17`, the witness of the known finding -/
+def xTiny : Float := Float.ofBits 13575836048340472983
+
+/-- COUNTEREXAMPLE to the half-open range: `correct_position_entry(-1e-17)` with `L = 1.0` is exactly `1.0 = L` -/
+theorem float_correctPosition_returns_L :
+    (wrap Ops.floatK xTiny 1.0).toBits = (1.0 : Float).toBits := by decide +kernel
+
+/-- … so the result is NOT below `L` -/
+theorem float_correctPosition_not_lt_L : ¬ (wrap Ops.floatK xTiny 1.0 < 1.0) := by decide +kernel
+
+/-- COUNTEREXAMPLE to idempotence: a second correction maps `L` to `0.0` -/
+theorem float_correctPosition_not_idempotent :
+    (wrap Ops.floatK (wrap Ops.floatK xTiny 1.0) 1.0).toBits ≠ (wrap Ops.floatK xTiny 1.0).toBits ∧
+    (wrap Ops.floatK (wrap Ops.floatK xTiny 1.0) 1.0).toBits = (0.0 : Float).toBits := by decide +kernel
+
+/-- the same through the class model, cubic and cuboid, after the real set-up -/
+theorem float_cubic_correctPositionEntry_returns_L :
+    (match Cubic.init Ops.floatK 3 1.0 with
+     | .ok c => (c.correctPositionEntry Ops.floatK xTiny 0).toBits == (1.0 : Float).toBits
+     | .error _ => false) = true := by decide +kernel
+
+theorem float_cuboid_correctPosition_returns_L :
+    (match Cuboid.init Ops.floatK 3 [1.0, 2.0, 3.0] with
+     | .ok c => ((c.correctPosition Ops.floatK [xTiny, xTiny, xTiny]).map (·.map Float.toBits))
+                  == some [(1.0 : Float).toBits, (2.0 : Float).toBits, (3.0 : Float).toBits]
+     | .error _ => false) = true := by decide +kernel
+
+/-- the tie: for `L = 1` the inputs that come back as `L` are exactly `-2^-54 ≤ x < 0`
+(`1 - 2^-54` is half-way between `1 - 2^-53` and `1` and rounds to even); one ulp further it is correct again -/
+theorem float_correctPosition_tie :
+    (wrap Ops.floatK (Float.ofBits 0xBC90000000000000) 1.0).toBits = (1.0 : Float).toBits ∧
+    (wrap Ops.floatK (Float.ofBits 0xBC90000000000001) 1.0).toBits = 0x3FEFFFFFFFFFFFFF := by decide +kernel
+
+/-- the separation bound is closed in binary64: `(s + L/2) % L` may come back as `L`, and then the result is `+L/2`
+(here `L = 3`, `s` one ulp below `-1.5`): magnitude `≤ L/2` holds, the strict `< L/2` of the exact reading does not -/
+theorem float_correctSeparation_plus_half :
+    (wrapSep Ops.floatK (Float.ofBits 0xBFF8000000000001) 3.0 1.5).toBits = (1.5 : Float).toBits := by decide +kernel
+
+/-- separations of exactly `±L/2` both map to `-L/2` (the window is `[-L/2, L/2)`) -/
+theorem float_correctSeparation_half :
+    (wrapSep Ops.floatK 0.5 1.0 0.5).toBits = (-0.5 : Float).toBits ∧
+    (wrapSep Ops.floatK (-0.5) 1.0 0.5).toBits = (-0.5 : Float).toBits := by decide +kernel
+
+/-! ## 7. rounding-abstract reading
+
+`RQ R`: rationals whose `+`/`-` round with an arbitrary monotone idempotent `R.rnd` (`JF/Lemmas/PeriodicRnd.lean`),
+`fmod` exact as in C.  Standing hypotheses: `0`, `L` (and `±L/2`) representable, and the exact `fmod` result
+representable (true for binary floating point: `fmod` never rounds).  The SAME model definitions `wrap` / `wrapSep`. -/
+
+section rounding
+variable (R : Rnd)
+
+/-- the corrected position is the exact one, rounded once -/
+theorem rq_wrap_eq (x L : RQ R) (h0 : R.Rep 0) (hm : R.Rep (Ops.rat.fmod x.val L.val)) :
+    (wrap (Ops.rq R) x L).val = R.rnd (wrap Ops.rat x.val L.val) := rq_pymod R x L h0 hm
+
+/-- … hence congruent to the input up to ONE rounding -/
+theorem rq_wrap_congr_one_rounding (x L : RQ R) (hL : 0 < L.val) (h0 : R.Rep 0)
+    (hm : R.Rep (Ops.rat.fmod x.val L.val)) :
+    ∃ k : ℤ, (wrap (Ops.rq R) x L).val = R.rnd (x.val - k * L.val) :=
+  ⟨⌊x.val / L.val⌋, by rw [rq_wrap_eq R x L h0 hm, wrap_eq hL]; ring_nf⟩
+
+/-- CLOSED bounds survive every monotone rounding: `0 ≤ y ≤ L` -/
+theorem rq_wrap_bounds (x L : RQ R) (hL : 0 < L.val) (h0 : R.Rep 0) (hLr : R.Rep L.val)
+    (hm : R.Rep (Ops.rat.fmod x.val L.val)) :
+    0 ≤ (wrap (Ops.rq R) x L).val ∧ (wrap (Ops.rq R) x L).val ≤ L.val := by
+  rw [rq_wrap_eq R x L h0 hm]
+  have := wrap_range (x := x.val) hL
+  constructor
+  · have h := R.mono this.1; rwa [h0] at h
+  · have h := R.mono this.2.le; rwa [hLr] at h
+
+/-- a non-negative input is wrapped without any rounding: exactly congruent and inside `[0, L)` -/
+theorem rq_wrap_exact_of_nonneg (x L : RQ R) (hL : 0 < L.val) (hx : 0 ≤ x.val) (h0 : R.Rep 0)
+    (hm : R.Rep (Ops.rat.fmod x.val L.val)) :
+    (wrap (Ops.rq R) x L).val = wrap Ops.rat x.val L.val := by
+  rw [rq_wrap_eq R x L h0 hm, wrap_eq hL]
+  rw [fmod_rat_nonneg (div_nonneg hx hL.le)] at hm
+  exact hm
+
+/-- every representable number of `[0, L)` is a fixed point -/
+theorem rq_wrap_fixed (y L : RQ R) (hy0 : 0 ≤ y.val) (hy1 : y.val < L.val) (h0 : R.Rep 0) (hy : R.Rep y.val) :
+    (wrap (Ops.rq R) y L).val = y.val := by
+  have hL : 0 < L.val := lt_of_le_of_lt hy0 hy1
+  have hm : R.Rep (Ops.rat.fmod y.val L.val) := by rw [fmod_rat_fixed hy0 hy1]; exact hy
+  rw [rq_wrap_exact_of_nonneg R y L hL hy0 h0 hm, wrap_fixed hL hy0 hy1]
+
+/-- `L` itself is mapped to `0` -/
+theorem rq_wrap_L (L : RQ R) (hL : 0 < L.val) (h0 : R.Rep 0) : (wrap (Ops.rq R) L L).val = 0 := by
+  have hf : Ops.rat.fmod L.val L.val = 0 := by
+    rw [fmod_rat_nonneg (by rw [div_self hL.ne']; norm_num), div_self hL.ne']; simp
+  rw [rq_wrap_exact_of_nonneg R L L hL hL.le h0 (by rw [hf]; exact h0), wrap_eq hL, div_self hL.ne']; simp
+
+/-- the result is `L` only for a negative input -/
+theorem rq_wrap_eq_L_imp_neg (x L : RQ R) (hL : 0 < L.val) (h0 : R.Rep 0)
+    (hm : R.Rep (Ops.rat.fmod x.val L.val)) (h : (wrap (Ops.rq R) x L).val = L.val) : x.val < 0 := by
+  by_contra hx
+  rw [rq_wrap_exact_of_nonneg R x L hL (not_lt.mp hx) h0 hm] at h
+  have := (wrap_range (x := x.val) hL).2
+  linarith
+
+/-- idempotence holds whenever the first result is not `L`; if it is `L`, the second application gives `0`
+(so the correction is idempotent from the second application on) -/
+theorem rq_wrap_idem_or_L (x L : RQ R) (hL : 0 < L.val) (h0 : R.Rep 0) (hLr : R.Rep L.val)
+    (hm : R.Rep (Ops.rat.fmod x.val L.val)) :
+    (wrap (Ops.rq R) (wrap (Ops.rq R) x L) L).val = (wrap (Ops.rq R) x L).val ∨
+    ((wrap (Ops.rq R) x L).val = L.val ∧ x.val < 0 ∧ (wrap (Ops.rq R) (wrap (Ops.rq R) x L) L).val = 0) := by
+  have hb := rq_wrap_bounds R x L hL h0 hLr hm
+  rcases lt_or_eq_of_le hb.2 with hlt | heq
+  · left
+    apply rq_wrap_fixed R _ L hb.1 hlt h0
+    rw [rq_wrap_eq R x L h0 hm]; exact R.rep_rnd _
+  · right
+    refine ⟨heq, rq_wrap_eq_L_imp_neg R x L hL h0 hm heq, ?_⟩
+    have : wrap (Ops.rq R) x L = L := by
+      cases hw : wrap (Ops.rq R) x L with
+      | mk v => cases L with | mk l => simp [hw] at heq; rw [heq]
+    rw [this]; exact rq_wrap_L R L hL h0
+
+/-- the separation bound is closed, so it survives every monotone rounding: `|r| ≤ L/2` -/
+theorem rq_wrapSep_abs_le (s L h : RQ R) (hh : 0 < h.val) (hLh : L.val = 2 * h.val) (h0 : R.Rep 0)
+    (hLr : R.Rep L.val) (hhr : R.Rep h.val) (hhn : R.Rep (-h.val))
+    (hm : R.Rep (Ops.rat.fmod (s + h).val L.val)) :
+    |(wrapSep (Ops.rq R) s L h).val| ≤ h.val := by
+  have hL : 0 < L.val := by linarith
+  have hb := rq_wrap_bounds R (s + h) L hL h0 hLr hm
+  unfold wrap at hb
+  unfold wrapSep
+  rw [RQ.sub_val, _root_.abs_le]
+  constructor
+  · have := R.mono (show -h.val ≤ (pymod (Ops.rq R) (s + h) L).val - h.val by linarith [hb.1])
+    rwa [hhn] at this
+  · have := R.mono (show (pymod (Ops.rq R) (s + h) L).val - h.val ≤ h.val by linarith [hb.2])
+    rwa [hhr] at this
+
+end rounding
+
+/-- a toy rounding meeting the hypotheses of this section: identity below zero, round up to the next integer from
+zero on (monotone, idempotent; representable: all negative numbers and the natural numbers) -/
+def toyRnd : Rnd where
+  rnd a := if a < 0 then a else (⌈a⌉ : ℚ)
+  mono := by
+    intro a b hab
+    by_cases ha : a < 0
+    · by_cases hb : b < 0
+      · simp [ha, hb, hab]
+      · simp only [ha, hb, if_true, if_false]
+        have : (0 : ℚ) ≤ ⌈b⌉ := by exact_mod_cast Int.ceil_nonneg (not_lt.mp hb)
+        linarith
+    · have hb : ¬ b < 0 := by intro h; exact ha (lt_of_le_of_lt hab h)
+      simp only [ha, hb, if_false]
+      exact_mod_cast Int.ceil_mono hab
+  idem := by
+    intro a
+    by_cases ha : a < 0
+    · simp [ha]
+    · have : ¬ ((⌈a⌉ : ℚ) < 0) := by
+        have : (0 : ℚ) ≤ ⌈a⌉ := by exact_mod_cast Int.ceil_nonneg (not_lt.mp ha)
+        exact not_lt.mpr this
+      simp [ha, this]
+
+/-- non-vacuity AND sharpness of the closed upper bound: with `toyRnd`, `x = -1/100`, `L = 1` all hypotheses of
+`rq_wrap_bounds` hold and the result is exactly `L` — the abstract counterpart of the binary64 counterexample of §6 -/
+example : toyRnd.Rep 0 ∧ toyRnd.Rep 1 ∧ toyRnd.Rep (Ops.rat.fmod (-1 / 100) 1) ∧
+    (wrap (Ops.rq toyRnd) ⟨-1 / 100⟩ ⟨1⟩).val = 1 := by
+  have hf : Ops.rat.fmod (-1 / 100) 1 = -1 / 100 := by
+    rw [fmod_rat_neg (by norm_num)]
+    have : ⌈(-1 / 100 : ℚ) / 1⌉ = 0 := by rw [Int.ceil_eq_iff]; norm_num
+    rw [this]; norm_num
+  have h0 : toyRnd.Rep 0 := by simp [Rnd.Rep, toyRnd]
+  have hm : toyRnd.Rep (Ops.rat.fmod (-1 / 100) 1) := by rw [hf]; norm_num [Rnd.Rep, toyRnd]
+  refine ⟨h0, by norm_num [Rnd.Rep, toyRnd], hm, ?_⟩
+  rw [rq_wrap_eq toyRnd ⟨-1 / 100⟩ ⟨1⟩ h0 hm, wrap_eq (by norm_num)]
+  have : ⌊(-1 / 100 : ℚ) / 1⌋ = -1 := by rw [Int.floor_eq_iff]; norm_num
+  rw [this]
+  have : ⌈(99 / 100 : ℚ)⌉ = 1 := by rw [Int.ceil_eq_iff]; norm_num
+  norm_num [toyRnd, this]
+
+/-- non-vacuity of `rq_wrapSep_abs_le`: `L = 2`, `h = 1`, `s = -3/2` (all representable for `toyRnd`) -/
+example : toyRnd.Rep 0 ∧ toyRnd.Rep 2 ∧ toyRnd.Rep 1 ∧ toyRnd.Rep (-1) ∧
+    toyRnd.Rep (Ops.rat.fmod ((⟨-3 / 2⟩ : RQ toyRnd) + ⟨1⟩).val 2) := by
+  have e : ((⟨-3 / 2⟩ : RQ toyRnd) + ⟨1⟩).val = -1 / 2 := by
+    norm_num [RQ.add_val, toyRnd]
+  have hf : Ops.rat.fmod (-1 / 2) 2 = -1 / 2 := by
+    rw [fmod_rat_neg (by norm_num)]
+    have : ⌈(-1 / 2 : ℚ) / 2⌉ = 0 := by rw [Int.ceil_eq_iff]; norm_num
+    rw [this]; norm_num
+  refine ⟨by simp [Rnd.Rep, toyRnd], by norm_num [Rnd.Rep, toyRnd], by norm_num [Rnd.Rep, toyRnd],
+    by norm_num [Rnd.Rep, toyRnd], ?_⟩
+  rw [e, hf]; norm_num [Rnd.Rep, toyRnd]
 
 end JF.C15
